@@ -20,6 +20,7 @@ import DD.Capacity2
 import DD.Capacity3
 import DD.Capacity3Cofactor
 import DD.Capacity3Rename
+import DD.Capacity3Cube
 import DD.Driver
 open Std
 
@@ -140,6 +141,13 @@ def stepLineCap (s : CapSession) (line : String) : CapSession × String :=
           | some u, some [v] => runCapOn s id sched (DRes.int <$> applyCapL cap aop u (some v) none) (DRes.int <$> applyCap cap aop u (some v) none)
           | some u, some [v, w] => runCapOn s id sched (DRes.int <$> applyCapL cap aop u (some v) (some w)) (DRes.int <$> applyCap cap aop u (some v) (some w))
           | _, _ => (s, "err OtherError")
+        | "cube", [d] =>
+          match (parsePairs d).bind (fun ps => ps.mapM fun (k, b) => do
+              let b ← parseBool? b; pure (k, b)) with
+          | some d =>
+            if old then runCapOn s id sched (DRes.int <$> cubeCapO cap d) (DRes.int <$> cubeCapO cap d)
+            else runCapOn s id sched (DRes.int <$> cubeCapL cap d) (DRes.int <$> cubeCap cap d)
+          | none => (s, "err OtherError")
         | "compose", [u, d] =>
           match parseInt? u, (parsePairs d).bind (fun ps => ps.mapM fun (k, r) => do
               let r ← parseInt? r; pure (k, r)) with
